@@ -119,7 +119,7 @@ PROPS.update({
         sub="c12", cfgs=["D", "C", "A", "CA"],
         rule="every big-integer operation is executed on every member of the LIMBS operand family and compared with schoolbook naturals; a result within the design capacity (BIGINT_LIMBS, read from the crate) must be returned by both back-ends for vectors built with the crate's constructors; beyond it the stack back-end must and the heap back-end may report failure, never a wrong value. Capacity is read from the crate. Preconditions as the property states them (non-zero factors, normalised operands for hi64/compare/overflow judgement).",
         exhaustive_over={"quick": "LIMBS (~27k vectors: all <=3-limb vectors over 10 limb values, constant and one-hot vectors at lengths 4-6, 30-32, cap-2..cap) x {unary, small_add/mul x 10 scalars, small_add_from, shl_bits}; ~490-operand normalised sub-family squared x {compare, long_mul, large_mul, large_add_from x 5 offsets}; pow5 for every n in 0..=1200 x 3 operands; Bigint::pow(2|5|10, n); shl for every n in 0..=64*cap+1; shl_limbs up to cap+1",
-                         "thorough": "larger sub-family, pow to 1800"},
+                         "thorough": "sub-family of ~1900 operands squared (49 M operations), pow to 1800"},
         assumptions=["64-bit limbs (host)", "naturals in harness/core are correct (multiplication self-consistent with the decimal tests)"]),
     "C13": dict(
         sub="c13", cfgs=["D", "A"],
@@ -136,13 +136,13 @@ PROPS.update({
         sub="c17", cfgs=["D"],
         rule="for every bit pattern: to_bits(from_bits) lossless, is_denormal == (exponent field == 0), mantissa()/exponent() equal the canonical IEEE decomposition, slow::b / bh follow from it, extended_to_float packs (biased exponent, fraction) into exactly those fields. Complete for f32.",
         exhaustive_over={"quick": "ALL 2^32 f32 bit patterns; f64: 2048 exponent fields x 2 signs x 156 fraction patterns + complete low-20-bit sweeps of exponent fields 0, 1, 2046, 2047 both signs",
-                         "thorough": "plus 4096 seed-rotated fraction patterns per f64 exponent field"},
+                         "thorough": "plus 4096 seed-rotated fraction patterns and complete sweeps of the low 16 and the high 16 fraction bits in every f64 exponent field, both signs"},
         assumptions=["the helpers are configuration independent (defined in num.rs without cfg)"]),
     "C18": dict(
         sub="c18", cfgs=["D", "C"],
         rule="round::<F> with the nearest-even closure (as Bellerophon uses it), the nearest-even-with-sticky closure (big-integer path) and round_down is executed for every biased exponent of the callers' range on significands built from kept-bits x dropped-bits patterns; the packed result is compared with an exact u128 reference rounding. Mask helpers for every width (complete).",
         exhaustive_over={"quick": "f64 exponents [-63,2100], f32 [-63,320] (every subnormal shift 1..64, the normal shift, every overflow case) x ~50 kept patterns x 9 dropped patterns x 3 closures; lower_n_mask/lower_n_halfway/nth_bit for 0..=64",
-                         "thorough": "every kept-bit position"},
+                         "thorough": "every kept-bit position, every pattern of the low 6 kept bits, dense 64-wide windows of dropped bits around half and at both ends (568 M cases)"},
         assumptions=["packed bits are compared, never (mant, exp) pairs"]),
 })
 
@@ -151,7 +151,7 @@ PROPS.update({
         sub="c19", cfgs=["D", "C"],
         rule="all seven shipped copies of the front-end are compiled from the repository sources (build.rs cuts each file to helpers + parse_float and asserts that nothing else was edited) and run on every input; an independent longest-prefix recogniser of the grammar gives the consumed length, the sign and the exact decimal value, which the exact oracle turns into the expected bits (NaN/inf for the special literals of the fuzz/test copies). No panic on any input. Non-trivial: longer than 2 bytes.",
         exhaustive_over={"quick": "TEXT(6): every byte string of length <= 6 over {+ - 0 1 9 . e E x NUL 0xFF / : 0xB2 0xBD} (12.2 M); every case variant of nan/inf/infinity x sign x 7 suffixes + near misses; structured product sign x 8 integers x 8 fractions x 14 exponents (incl. beyond i32) x 8 suffixes (21.5 k); 7 copies x f32/f64",
-                         "thorough": "TEXT(7) (183 M)"},
+                         "thorough": "TEXT(8) over the 15 bytes (2.7 G strings)"},
         assumptions=ASSUME_EXACT[:1] + ["the grammar is the one in the property statement; the reference recogniser is independent code"]),
 })
 
